@@ -175,6 +175,7 @@ func (j *cacheJanitor[MetadataT]) evict(maxCacheBytes int64) {
 		// The metadata is only stable under the key's lock; an entry that is in use right now is not a candidate
 		lock := j.cacheFns.getLock(key)
 		if !lock.TryLock() {
+			verifhook.Emit("evict_skip", key.Hex, 0, 0)
 			continue
 		}
 		timeSinceAccess := now.Sub(meta.LastAccess).Milliseconds()
